@@ -10,7 +10,7 @@ from vlib.runner import ShardResult, Violation
 
 ID = "C20"
 LEVEL = "exploration"
-RULE = ("a case is (class PickledDict|DBMDict, creation via create|from_dict(d), operation history up to 30 (quick) / 50 "
+RULE = ("a case is (class PickledDict|DBMDict, creation via create|from_dict(d) with d a dict or a dict subclass (defaultdict, OrderedDict, one with __missing__), operation history up to 30 (quick) / 50 "
         "(thorough) steps over a 6-key universe): set/get/get-default/delete (present and absent)/in/len/iteration/clear/sync/"
         "invalid values (str,int,None,list,memoryview,array,float,tuple)/mutation of the source dict after from_dict/create-over-existing/open-missing, and "
         "for PickledDict close+open and use-after-close at arbitrary points (DBMDict: one open session, use-after-close once at "
@@ -76,6 +76,20 @@ class Run:
             self.d = self.cls().create(self.path)
         else:
             self.source = {B(k): decode_value(v) for k, v in self.case["init"]}
+            kind = self.case.get("source_kind", "dict")
+            if kind != "dict":
+                # the source is a dict all right, but of a subclass (what json/collections hand out): the persistent dictionary
+                # must still behave like a plain dict
+                import collections
+
+                class Missing(dict):
+                    def __missing__(self, key):
+                        return b"MISSING"
+
+                    def copy(self):
+                        return Missing(self)
+                self.source = {"defaultdict": lambda s: collections.defaultdict(bytes, s), "ordered": collections.OrderedDict,
+                               "missing_hook": Missing}[kind](self.source)
             self.d = self.cls().from_dict(self.source, self.path)
             self.model = {k: bytes(v) for k, v in self.source.items()}
 
@@ -98,6 +112,14 @@ class Run:
             else:
                 if d.get(key) is not None or d.get(key, b"dflt") != b"dflt":
                     self.fail(k, "%s: get of absent %r does not return the default" % (why, key), "state_get:" + why)
+                try:
+                    r = d[key]
+                except KeyError:
+                    pass
+                else:
+                    self.fail(k, "%s: d[%r] of an absent key returned %r instead of raising KeyError" % (why, key, r), "state_missing_key:" + why)
+        if len(d) != len(m):
+            self.fail(k, "%s: len %d after the reads, model %d (a read changed the dictionary)" % (why, len(d), len(m)), "state_len_after_reads:" + why)
 
     def must_raise(self, k, fn, what, exc=Exception):
         try:
@@ -266,6 +288,7 @@ def st_case(draw, max_ops=30):
     if draw(st.booleans()):
         kis = draw(st.lists(st.integers(0, len(KEYS) - 1), unique=True, max_size=len(KEYS)))
         c["init"] = [[KEYS[i].hex(), ["b", draw(st.binary(max_size=20)).hex()]] for i in kis]
+        c["source_kind"] = draw(st.sampled_from(["dict", "dict", "defaultdict", "ordered", "missing_hook"]))
     else:
         c["init"] = None
     c["ops"] = draw(st.lists(st_op(pickled), min_size=1, max_size=max_ops))
@@ -293,6 +316,8 @@ def is_nontrivial(c):
 def classes_of(c):
     rem, reopen = _flags(c)
     out = ["cls:" + c["cls"], "create:" + ("from_dict" if c["init"] is not None else "create")]
+    if c["init"] is not None:
+        out.append("from_dict_source:" + c.get("source_kind", "dict"))
     if rem:
         out.append("removal_after_set")
     if reopen:
